@@ -194,9 +194,16 @@ def gen_dag(rng, cyclic=False, with_pull=True, shared_pull=False, late_start=Tru
                 # the same output of a pull-based component read twice by one consumer, the first link delayed by at
                 # most the consumer's smallest step (so that the requests reaching the component stay monotone)
                 d = rng.choice([1, min(comps[k]["steps"]) // 2 or 1, min(comps[k]["steps"])])
-                comps[k]["inputs"].append({"src": [j, so], "chain": [["fixed", d]] + ([["pass"]] if rng.random() < 0.3 else [])})
+                so1 = so
+                if comps[j]["nout"] >= 2 and rng.random() < 0.5:
+                    so1 = (so + 1) % comps[j]["nout"]   # the delayed link reads ANOTHER output of the same component
+                comps[k]["inputs"].append({"src": [j, so1], "chain": [["fixed", d]] + ([["pass"]] if rng.random() < 0.3 else [])})
                 chain = [a for a in chain if a[0] == "pass"]
             comps[k]["inputs"].append({"src": [j, so], "chain": chain})
+    # components that declare themselves FINISHED from some update on (no effect on the unchanged driver)
+    for k in range(n):
+        if kinds[k] == "T" and rng.random() < 0.15:
+            comps[k]["finish_after"] = rng.choice([1, 2, 3, 5])
     # static outputs of time components (a model publishing a parameter next to its state), read by ordinary inputs
     for k in range(n):
         if kinds[k] == "T" and rng.random() < 0.25:
@@ -306,7 +313,7 @@ def permute(comps, order):
     out = []
     for old in order:
         c = dict(comps[old])
-        c["inputs"] = [{"src": [pos[i["src"][0]], i["src"][1]], "chain": i["chain"]} for i in c["inputs"]]
+        c["inputs"] = [dict(i, src=[pos[i["src"][0]], i["src"][1]]) for i in c["inputs"]]
         out.append(c)
     return out
 
@@ -544,3 +551,61 @@ def replay_times_cnt(case, obs):
             yield idx, e[1], e[2], dict(times), dict(cnt)
             times[e[1]] = e[2]
             cnt[e[1]] += 1
+
+
+def gen_pipeline(rng):
+    """A(fast) -> B(slower) -> C(slowest): B is updated as an upstream dependency of C while it is ahead of A;
+    the A->B link carries a chain mixing DelayToPull and DelayFixed (non-commuting shifts)."""
+    unit = rng.choice(UNITS)
+    sa = unit * rng.choice([1, 1, 2])
+    sb = sa * rng.choice([3, 5, 10])
+    scc = sb * rng.choice([2, 3])
+    ch = [["topull", rng.choice([1, 2, 3]), unit * rng.choice([0, 1])], ["fixed", unit * rng.choice([1, 2, 3])]]
+    if rng.random() < 0.5:
+        ch.reverse()
+    for _ in range(rng.choice([0, 0, 1])):
+        ch.insert(rng.randrange(len(ch) + 1), ["pass"])
+    comps = [{"kind": "T", "start": 0, "steps": [sa], "initpull": False, "nout": 1, "inputs": []},
+             {"kind": "T", "start": 0, "steps": [sb], "initpull": rng.random() < 0.5, "nout": 1,
+              "inputs": [{"src": [0, 0], "chain": ch}]},
+             {"kind": "T", "start": 0, "steps": [scc], "initpull": False, "nout": 0,
+              "inputs": [{"src": [1, 0], "chain": gen_chain(rng, unit, allow_topush=False, maxlen=2)}]}]
+    order = list(range(3))
+    rng.shuffle(order)
+    return {"comps": permute(comps, order), "end": scc * rng.choice([1, 2, 3]) + rng.choice([0, 1])}
+
+
+def gen_shared_equal(rng):
+    """A pull-based component with a DelayToPull on its input, read by two consumers that run in lock step (equal
+    steps and starts): the component is asked twice for the same time in one scheduler pass."""
+    unit = rng.choice(UNITS)
+    sa = unit * rng.choice([1, 2])
+    sc_ = sa * rng.choice([1, 2, 3])
+    comps = [{"kind": "T", "start": 0, "steps": [sa], "initpull": False, "nout": 1, "inputs": []},
+             {"kind": "P", "nout": rng.choice([1, 2]),
+              "inputs": [{"src": [0, 0], "chain": [["topull", rng.choice([1, 2]), 0]] + ([["pass"]] if rng.random() < 0.4 else [])}]},
+             {"kind": "T", "start": 0, "steps": [sc_], "initpull": False, "nout": 0, "inputs": [{"src": [1, 0], "chain": []}]},
+             {"kind": "T", "start": 0, "steps": [sc_], "initpull": False, "nout": 0, "inputs": [{"src": [1, 0], "chain": []}]}]
+    if comps[1]["nout"] == 2:
+        comps[3]["inputs"][0]["src"] = [1, 1]
+    order = list(range(4))
+    rng.shuffle(order)
+    return {"comps": permute(comps, order), "end": sc_ * rng.choice([2, 3, 5])}
+
+
+def gen_relay2(rng):
+    """source -> pull-based relay with TWO outputs -> one consumer reading one output delayed (declared first) and
+    the other directly: the relay is reached twice in one scheduler pass, for an earlier time first"""
+    unit = rng.choice(UNITS)
+    sa = unit * rng.choice([1, 1, 2])
+    scc = sa * rng.choice([2, 3, 5])
+    d = rng.choice([sa, 2 * sa, scc - sa, scc])
+    d = max(1, min(d, scc))
+    relay_in = [["pass"]] if rng.random() < 0.3 else []
+    comps = [{"kind": "T", "start": 0, "steps": [sa], "initpull": False, "nout": 1, "inputs": []},
+             {"kind": "P", "nout": 2, "inputs": [{"src": [0, 0], "chain": relay_in}]},
+             {"kind": "T", "start": 0, "steps": [scc], "initpull": rng.random() < 0.3, "nout": 0,
+              "inputs": [{"src": [1, 0], "chain": [["fixed", d]]}, {"src": [1, 1], "chain": [["pass"]] if rng.random() < 0.3 else []}]}]
+    order = list(range(3))
+    rng.shuffle(order)
+    return {"comps": permute(comps, order), "end": scc * rng.choice([2, 3, 4])}
